@@ -123,7 +123,7 @@ def jobs(prop, tier):
           for (mode, hstate, nm) in phases:
             if nm == 'arb':
                 for (case, cn) in ((0, 'won'), (1, 'lost'), (2, 'silent')):
-                    J.append(Job(prop, 'act_arb_%s_nn%d' % (cn, nn), 'C02_step.cpp', defs={'NNMAX': nn, 'PROP': pn, 'MODE': mode, 'HSTATE': hstate, 'ARBCASE': case}, unwind=5, shape='S', timeout=3000 if T else 300,
+                    J.append(Job(prop, 'act_arb_%s_nn%d' % (cn, nn), 'C02_step.cpp', defs={'NNMAX': nn, 'PROP': pn, 'MODE': mode, 'HSTATE': hstate, 'ARBCASE': case}, unwind=5, shape='S', timeout=3000 if T else 600,
                          unwindset={'vp_main': 257, 'RecListener': nn + 8, 'related': nn + 8, 'relatedActive': nn + 8, 'reqIsM': nn + 8, 'setVec': nn + 8},
                          bounds='one handler step from every state in which the own arbitration address was written and its echo is awaited, case "%s" of {address echoed, other symbol, nothing read}, request NN <= %d' % (cn, nn), **BUS))
                 continue
@@ -151,7 +151,7 @@ def jobs(prop, tier):
             if not T and 'q%d_arm%d_%s' % (nq, arm, gn) + ('_gen' if gs else '') not in quick:
                 continue
             gdef = {'ENV_GENSYN': gs} if hg <= 1 else {}
-            J.append(Job(prop, 'pas_q%d_arm%d_%s%s' % (nq, arm, gn, '_gen' if gs else ''), 'C03_passive.cpp', defs=dict({'NNMAX': nn, 'PROP': pn, 'NQ': nq, 'ARM': arm, 'HGROUP': hg}, **gdef), unwind=5, shape='S', timeout=3000 if T else 300,
+            J.append(Job(prop, 'pas_q%d_arm%d_%s%s' % (nq, arm, gn, '_gen' if gs else ''), 'C03_passive.cpp', defs=dict({'NNMAX': nn, 'PROP': pn, 'NQ': nq, 'ARM': arm, 'HGROUP': hg}, **gdef), unwind=5, shape='S', timeout=3000 if T else 600,
                          unwindset={'vp_main': 257, 'RecListener': nn + 8, 'related': nn + 8, 'relatedActive': nn + 8, 'reqIsM': nn + 8, 'setVec': nn + 8, 'fillRequest': nn + 8},
                          bounds='one handler step from every passive handler state of group "%s" with %d request(s) waiting and the device %s, every read outcome; telegram parts NN <= %d (the data size of passive reception is C01\'s subject)' % (gn, nq, ('idle', 'armed for arbitration', 'waiting for the echo of its arbitration address')[arm], nn), **BUS))
     if prop == 'C15':
